@@ -97,6 +97,7 @@ type input struct {
 	scheme  string
 	auth    string // "" none, "obj" scheme-appropriate object
 	rawJSON string // for data/garbage
+	vanish  bool   // close right after sending, without reading the answer
 }
 
 func alphabet() []input {
@@ -128,6 +129,7 @@ func alphabet() []input {
 	a = append(a, input{name: "non-envelope", kind: "garbage", rawJSON: `{"foo":1}`})
 	a = append(a, input{name: "bad-state", kind: "garbage", rawJSON: `{"state":"bogus"}`})
 	a = append(a, input{name: "auth-without-scheme", kind: "garbage", rawJSON: `{"state":"authenticating","id":"ECHO","authentication":{"password":"eA=="}}`})
+	a = append(a, input{name: "auth(guest)+vanish", kind: "session", state: "authenticating", id: "echo", scheme: "guest", auth: "obj", vanish: true})
 	a = append(a, input{name: "close", kind: "close"})
 	a = append(a, input{name: "halfclose", kind: "halfclose"})
 	return a
@@ -206,26 +208,28 @@ type stepObs struct {
 }
 
 type run struct {
-	cfg        Config
-	variant    string // "server" | "channel"
-	steps      []stepObs
-	auths      []authCall
-	regs       []regCall
-	estCb      int
-	finCb      int
-	estCbID    string
-	eof        bool
-	extraAfter []map[string]interface{}
-	srvChan    *lime.ServerChannel
-	srvTr      lime.Transport
-	estErr     error
-	estRet     bool
-	srvTap     []byte // first bytes of each chunk the server wrote (classification)
-	srvChunks  [][]byte
-	cliChunks  [][]byte
-	sid        string
-	failedSeen bool
-	depth      int
+	cfg         Config
+	variant     string // "server" | "channel"
+	steps       []stepObs
+	auths       []authCall
+	regs        []regCall
+	estCb       int
+	finCb       int
+	estCbID     string
+	eof         bool
+	extraAfter  []map[string]interface{}
+	srvChan     *lime.ServerChannel
+	srvTr       lime.Transport
+	estErr      error
+	estRet      bool
+	srvTap      []byte // first bytes of each chunk the server wrote (classification)
+	srvChunks   [][]byte
+	cliChunks   [][]byte
+	sid         string
+	failedSeen  bool
+	depth       int
+	srvWroteEst bool // the server's write of an established envelope was accepted by its connection (cleartext only)
+	vanished    bool
 }
 
 // ---- the scenario body ----------------------------------------------------------------
@@ -309,7 +313,12 @@ func body(variant string, cfgs []Config, depth int, allowTLSRefusal bool) func(x
 			go func() { _ = srv.ListenAndServe() }()
 			conn = pl.Dial()
 			r.srvTr = pl.Transports[0]
-			pl.Servers[0].Tap = func(b []byte) { r.srvChunks = append(r.srvChunks, append([]byte{}, b[:min(len(b), 8)]...)) }
+			pl.Servers[0].Tap = func(b []byte) {
+				r.srvChunks = append(r.srvChunks, append([]byte{}, b[:min(len(b), 8)]...))
+				if strings.Contains(string(b), `"state":"established"`) {
+					r.srvWroteEst = true
+				}
+			}
 		case "channel":
 			c, s := rt.Pipe(64 << 10)
 			c.Name, s.Name = "client", "server"
@@ -343,9 +352,12 @@ func body(variant string, cfgs []Config, depth int, allowTLSRefusal bool) func(x
 			default:
 				so.sent = in.bytes(r.sid)
 				so.sendErr = peer.Send(so.sent) != nil
+				if in.vanish {
+					_ = peer.Conn.Close()
+				}
 			}
 			x.Obs("step %d send %s", step, in.name)
-			if in.kind != "close" {
+			if in.kind != "close" && !in.vanish {
 				for {
 					m, ok := peer.ReadOne(30 * time.Second)
 					if !ok {
@@ -385,6 +397,13 @@ func body(variant string, cfgs []Config, depth int, allowTLSRefusal bool) func(x
 				so.srvState = r.srvChan.State()
 			}
 			r.steps = append(r.steps, so)
+			if in.vanish {
+				r.vanished = true
+				rt.Quiesce()
+				r.steps = append(r.steps, stepObs{in: input{name: "close(vanish)", kind: "close"}})
+				model.stage = stSilent
+				break
+			}
 			if tlsBroken {
 				r.steps = append(r.steps, stepObs{in: input{name: "close(tls-broken)", kind: "close"}})
 				model.stage = stSilent
@@ -583,6 +602,20 @@ func judge(prop string) func(x *harness.X, res *rt.Result) {
 			if so.in.kind == "session" && so.in.state == "authenticating" {
 				latestAuthEnv = si
 			}
+			if so.in.vanish {
+				// the client sent this and hung up without reading: nothing the server
+				// emitted afterwards was observed; only the callbacks are accounted for
+				if cls == "valid" && stageBefore == stAwaitAuth && authCursor < len(r.auths) {
+					ac := r.auths[authCursor]
+					authCursor++
+					if ac.outcome == 0 && m.regIdx < len(r.regs) {
+						authOK = r.regs[m.regIdx].outcome != 2
+						m.regIdx++
+					}
+				}
+				m.stage = stSilent
+				break
+			}
 			// -- C07 (iii): visible state never moves backwards
 			if want("C07") && so.srvState != "" {
 				if st := so.srvState.Step(); st < lastState {
@@ -612,6 +645,17 @@ func judge(prop string) func(x *harness.X, res *rt.Result) {
 			}
 			switch cls {
 			case "violation":
+				// -- C09: only a pair chosen from the offer is ever confirmed; any other choice gets a failed session
+				if want("C09") && stageBefore == stAwaitChoice && so.in.state == "negotiating" && so.in.id == "echo" {
+					for _, e := range so.got {
+						if lib.Str(e, "state") == "negotiating" && e["encryptionOptions"] == nil {
+							x.Failf("C09:confirmed-unoffered", "the server confirmed (%s,%s) although the offer was enc=%v comp=%v %s", lib.Str(e, "encryption"), lib.Str(e, "compression"), m.offEnc, m.offComp, script())
+						}
+					}
+					if !(len(so.got) == 1 && lib.Str(so.got[0], "state") == "failed") {
+						x.Failf("C09:unoffered-choice-not-failed", "the choice (%s,%s) is not in the offer enc=%v comp=%v but was answered with %v %s", so.in.enc, so.in.comp, m.offEnc, m.offComp, states(so.got), script())
+					}
+				}
 				// -- C07 (iv): answered with failed + reason, nothing more, connection closed
 				if want("C07") {
 					ok := len(so.got) == 1 && lib.Str(so.got[0], "state") == "failed"
@@ -811,7 +855,11 @@ func judge(prop string) func(x *harness.X, res *rt.Result) {
 			}
 		}
 		// -- C14: every connection that failed to establish is released
-		if want("C14") && r.variant == "server" && !established {
+		// a client that hung up without reading may still have been established from the
+		// server's point of view (its established envelope went out): not a failed handshake.
+		// Under TLS the tap cannot tell, so those paths are left undecided.
+		srvSideEstablished := r.srvWroteEst || (r.vanished && r.srvTr != nil && string(r.srvTr.Encryption()) == "tls")
+		if want("C14") && r.variant == "server" && !established && !srvSideEstablished {
 			if !r.eof {
 				x.Failf("C14:not-closed:"+endClass(r, m), "handshake did not establish but the server never closed the connection (client saw no EOF within 45s of virtual time) %s", script())
 			}
@@ -977,7 +1025,7 @@ func Main(prop string) {
 	case "C14":
 		add("server/all/d4", "server", all, 4, true, 0, -1)
 		add("server/all/d6", "server", all, 6, true, -1, 0)
-		add("server/guest/d3/k1", "server", sel("guest/none"), 3, false, -1, 1)
+		add("server/guest/d3/k1", "server", sel("guest/none"), 3, false, 1, 1)
 	default: // C03, C07
 		add("server/all/d4", "server", all, 4, false, 0, -1)
 		add("channel/all/d4", "channel", all, 4, false, 0, -1)
